@@ -123,7 +123,10 @@ def gen_function(contract, contracts, known=()):
         tagged = {}
         for (n, s), cs in zip(specs.items(), case_lists):
             if len(cs) > 1:
-                tagged[n] = s.value if hasattr(s, "value") else f"{type(s).__name__[1:]}{[id(c) for c in cs].index(id(s))}"
+                idx = [id(c) for c in cs].index(id(s))
+                tagged[n] = s.value if hasattr(s, "value") else f"{type(s).__name__[1:]}{idx}"
+                if sum(1 for c in cs if getattr(c, "value", None) == tagged[n]) > 1:
+                    tagged[n] = f"{tagged[n]}#{idx}"
         if tagged:
             case_tag = "[" + ",".join(f"{k}={v}" for k, v in tagged.items()) + "]"
         interp = new_interp(contracts)
@@ -146,6 +149,8 @@ def gen_function(contract, contracts, known=()):
             S.GHOST["sum_labels"] = []
             S.GHOST["flatten"] = []
             interp.write_log = []
+            from . import frames as _frames
+            _frames.ROWMAPS.clear()
             interp.cached_calls = set()
             interp.cached_mutated = False
             interp.spec = 0
@@ -414,6 +419,8 @@ def build_replay(pid, contract, ob_name, meta, model, verdict_raw):
                 "    print('CONFIRMED'); sys.exit(1)",
                 "try:",
                 f"    ok = bool(eval({clause!r}, env))",
+                "except (NameError, SyntaxError) as _e:",
+                "    print('REPLAY-ERROR: the native clause itself is broken:', repr(_e)); sys.exit(3)",
                 "except Exception as _e:",
                 "    print('evaluating the clause on the real objects raised', repr(_e)); ok = False",
                 "print('clause holds natively:', ok)",
